@@ -1,10 +1,10 @@
 // Kani harnesses for src/formatters/expression.rs::check_excess_parentheses (appended to a scratch copy of the file).
 // Symbolic: the expression kind inside the parentheses (a unary operator over a name - all unary operators of the feature set -,
 // a binary operator, `...`, a name, a number, a nested parenthesised name, a unary operator over a parenthesised name), the
-// ExpressionContext (all values). Oracle, written from the Lua grammar: parentheses are NOT excess around
-//   - `...` (they truncate the value list), a binary operation (grouping may matter),
-//   - a unary operation when it is the left operand of `^` (BinaryLHSExponent), `not x` as a left operand (BinaryLHS);
-// they ARE excess around a name / number / another pair of parentheses in every context.
+// ExpressionContext (all values). Oracle, written from the Lua grammar - only what the property demands: parentheses are NOT excess around
+//   - `...` (they truncate the value list),
+//   - a unary operation when it is the left operand of `^` (BinaryLHSExponent).
+// Whether other parentheses are kept or dropped is style: not asserted. All paths must return (no panic).
 #[cfg(kani)]
 mod verif_kani {
     use super::*;
@@ -67,9 +67,10 @@ mod verif_kani {
         let operand = if wrapped { paren(name()) } else { name() };
         let e = Expression::UnaryOperator { unop, expression: Box::new(operand) };
         let r = check_excess_parentheses(&e, ctx);
-        if c == 4 { assert!(!r); }                // (-a) ^ b, (not a) ^ b, (#a) ^ b
-        if c == 3 && k == 1 { assert!(!r); }      // (not a) == b
-        if c == 0 || c == 1 { assert!(r); }       // local x = (-a): redundant
+        // the only place where dropping the parentheses around a unary operation changes the grouping: the left operand of `^`
+        // ((-a) ^ b is not -a ^ b). Everywhere else keeping or dropping them is a matter of style - nothing is asserted.
+        if c == 4 { assert!(!r); }
+        let _ = k;
         std::mem::forget(e);
     }
 
@@ -87,7 +88,8 @@ mod verif_kani {
             _ => Expression::BinaryOperator { lhs: Box::new(name()), binop: BinOp::Plus(sym(Symbol::Plus)), rhs: Box::new(number()) },
         };
         let r = check_excess_parentheses(&e, ctx);
-        if k <= 2 { assert!(r); } else { assert!(!r); }
+        // `(...)` truncates the value list: never excess. (Names, numbers, nested parentheses and binary operations: no demand.)
+        if k == 3 { assert!(!r); }
         std::mem::forget(e);
     }
 }
